@@ -239,10 +239,35 @@ func init() {
 				}
 			} else if sp.name == "X6" {
 				continue
-			} else if sp.name == "X10" {
+			} else if sp.name == "X10" || sp.name == "X12" {
 				bound = 1
 			}
 			out = append(out, Plan{Sc: c16Scenario(sp), Bound: bound})
+		}
+		return out
+	}
+	// C05 schedule part: a query of several statements that overlaps Close still gets the results of all of them
+	plans["C05"] = func(tier string) []Plan {
+		start := pgproto.Startup("user", "u")
+		q := pgproto.Query("q")
+		bound := 2
+		if tier == "thorough" {
+			bound = -1
+		}
+		var out []Plan
+		for _, sp := range []c16Spec{
+			{name: "Q1", conns: []c16Conn{{"c1", [][]byte{start, q}}}, closers: 1, twoStatements: true,
+				desc: "one connection with a query of two statements (each yielding) + Close"},
+			{name: "Q2", conns: []c16Conn{{"c1", [][]byte{start, pgproto.Cat(q, q)}}}, closers: 1, twoStatements: true,
+				desc: "two pipelined queries of two statements each + Close"},
+		} {
+			sc := c16Scenario(sp)
+			sc.Property = "C05"
+			b := bound
+			if sp.name == "Q2" && tier == "thorough" {
+				b = 3
+			}
+			out = append(out, Plan{Sc: sc, Bound: b})
 		}
 		return out
 	}
